@@ -210,7 +210,8 @@ func (s *sim) audit(r *request) {
 
 func TestC04(t *testing.T) {
 	rapid.Check(t, func(t *rapid.T) {
-		R := time.Duration(rapid.SampledFrom([]int{0, 20, 20, 40, 80}).Draw(t, "R")) * time.Millisecond
+		// 10 s: the retry timer cannot mask a missing re-send after a connection loss
+		R := time.Duration(rapid.SampledFrom([]int{0, 20, 20, 40, 80, 10000, 10000}).Draw(t, "R")) * time.Millisecond
 		sock, err := req.NewSocket()
 		if err != nil {
 			t.Fatalf("harness: %v", err)
@@ -333,7 +334,7 @@ func TestC04(t *testing.T) {
 			evn := rapid.SampledFrom([]string{"wait", "wait", "closeCarrier", "closeCarrier", "closeOther", "addPipe", "block", "release", "answer", "replace", "closeCtx"}).Draw(t, "ev")
 			switch evn {
 			case "wait":
-				if r == nil || !r.ended.IsZero() || R == 0 {
+				if r == nil || !r.ended.IsZero() || R == 0 || R > time.Second {
 					continue
 				}
 				n0 := len(s.copies(r))
@@ -511,6 +512,9 @@ func TestC04(t *testing.T) {
 			p.SetMode(vt.ModeAccept, nil)
 		}
 		watch := 2*R + 30*time.Millisecond
+		if watch > 200*time.Millisecond {
+			watch = 200 * time.Millisecond
+		}
 		time.Sleep(watch)
 		_ = sock.Close()
 		for ci := range ctxs {
